@@ -262,6 +262,10 @@ func check(c *Ctx, r *Report) error {
 	if err := partsStratum(c, r, rng); err != nil {
 		return err
 	}
+	// look-alike matrices under Transform / RotateUnion, operands with flat or point boxes under every
+	// box-building combinator, with parameter-derived probe points (flatlook.go); own generator stream, after
+	// the strata above so that those keep their inputs (one2/one3 draw their sample points from rng)
+	flatLookStratum(c, r, NewRng(c.Seed^0x5eed0c04), one3, one2)
 	if err := c3.Write(c.Out); err != nil {
 		return err
 	}
@@ -269,7 +273,7 @@ func check(c *Ctx, r *Report) error {
 		return err
 	}
 	r.Coverage["constructor_histogram"] = ctors
-	r.Rule = "random expression trees (depth <= 4) over 38 constructors built through the public Go API and mirrored as Coq terms; per tree: the six/four box floats and 12 Evaluate values compared with the Coq model at primitive floats, and the enclosure searched with " + fmt.Sprint(nsearch) + " points outside the box (thin shells 1e-1..1e-9 outside each face, 2x the box, edge/corner neighbourhoods). Offset/Shell only over operands in the Lb/LbInf classes and no enclosure claim under material-adding blends (see known findings). non-trivial = at least two distinct constructors in the tree; distinct by tree description. Plus (coverage.regimes_rule) parameter regimes of the constructors without a model with parameter-derived oracles and (coverage.histories_rule) caller-slice / parameter-struct histories against a twin built from a private copy."
+	r.Rule = "random expression trees (depth <= 4) over 38 constructors built through the public Go API and mirrored as Coq terms; per tree: the six/four box floats and 12 Evaluate values compared with the Coq model at primitive floats, and the enclosure searched with " + fmt.Sprint(nsearch) + " points outside the box (thin shells 1e-1..1e-9 outside each face, 2x the box, edge/corner neighbourhoods). Offset/Shell only over operands in the Lb/LbInf classes and no enclosure claim under material-adding blends (see known findings). non-trivial = at least two distinct constructors in the tree; distinct by tree description. Plus (coverage.regimes_rule) parameter regimes of the constructors without a model with parameter-derived oracles and (coverage.histories_rule) caller-slice / parameter-struct histories against a twin built from a private copy. Plus (coverage.flat_look_rule) look-alike matrices (determinant +-1 without being orthogonal, shears, unimodular, nearly diagonal ...) under Transform / RotateUnion and operands with flat or point bounding boxes under every box-building combinator, with probe points derived from the parameters."
 	r.Trusted = append(r.Trusted, "hand model coq/Sdf/Shape.v (constructors + Evaluate) tied by differential execution at FOps; matrix code translated from the Go AST by harness/exprgen on every run",
 		"Gallina port of Go math (coq/Num/GoMath.v), itself bit-exact on >1e6 arguments")
 	r.Assumptions = append(r.Assumptions, "theorems are over the reals; float64 rounding of box coordinates is not proved (a 1e-9 relative slack is allowed in the search)")
